@@ -581,7 +581,9 @@ class IRGenerator:
                 raise InvalidSpec(
                     'Annotations cannot be applied to parameters of annotation types',
                     param.lineno, param.path)
-            param_type = self._resolve_type(env, param.type_ref, True)
+            # (a user-defined type is refused below; it must not be
+            # populated this early)
+            param_type = self._resolve_type(env, param.type_ref)
             dt, nullable_dt = unwrap_nullable(param_type)
 
             if isinstance(dt, Void):
